@@ -19,6 +19,34 @@ import ffcx
 import ffcx.codegeneration
 
 
+def _array_signature(array) -> str:
+    """Signature of the shape, type and actual data of an array."""
+    array = np.ascontiguousarray(array)
+    return f"{array.shape}{array.dtype}" + hashlib.sha1(array.tobytes()).hexdigest()
+
+
+def _quadrature_data_signature(elements, integrals=()) -> str:
+    """Signature of custom quadrature rules and of quadrature elements.
+
+    UFL and Basix only put str()/repr() of these arrays into their
+    signatures. That is not injective: numpy prints 8 significant digits
+    and elides large arrays. Returns an empty string if there is no such
+    data.
+    """
+    signature = ""
+    for integral in integrals:
+        metadata = integral.metadata()
+        for key in ("quadrature_points", "quadrature_weights"):
+            if key in metadata:
+                signature += _array_signature(metadata[key])
+    element_signatures = set()
+    for element in ufl.algorithms.analysis.extract_sub_elements(elements):
+        if getattr(element, "has_custom_quadrature", False):
+            points, weights = element.custom_quadrature()
+            element_signatures.add(_array_signature(points) + _array_signature(weights))
+    return signature + "".join(sorted(element_signatures))
+
+
 def compute_signature(
     ufl_objects: list[ufl.Form] | list[tuple[ufl.core.expr.Expr, npt.NDArray[np.floating]]],
     tag: str,
@@ -33,6 +61,9 @@ def compute_signature(
         if isinstance(ufl_object, ufl.Form):
             kind = "form"
             object_signature += ufl_object.signature()
+            object_signature += _quadrature_data_signature(
+                ufl.algorithms.extract_elements(ufl_object), ufl_object.integrals()
+            )
         elif isinstance(ufl_object, tuple) and isinstance(ufl_object[0], ufl.core.expr.Expr):
             expr = ufl_object[0]
             points = ufl_object[1]
@@ -63,6 +94,9 @@ def compute_signature(
             # Hash on UFL signature and points
             signature = ufl.algorithms.signature.compute_expression_signature(expr, rn)
             object_signature += signature
+            object_signature += _quadrature_data_signature(
+                [c.ufl_element() for c in coeffs] + [a.ufl_element() for a in args]
+            )
             # NOTE: repr(points) is not injective: numpy prints 8 significant digits
             # and elides large arrays, so hash the actual data instead
             _points = np.ascontiguousarray(points)
